@@ -73,7 +73,11 @@ func runC09(c *Ctx) {
 		nPings := []int{0, 5, 40}[r.Intn(3)]
 		c.J.Log("CASE %s users=%d fg=%d bg=%d events=%d perUser=%d perInv=%d mode=%s", Case("run", idx), nUser, nFg, nBg, events, perUser, perInv, mode)
 
-		s := NewSession(SessionOpts{Flood: true})
+		s := NewSession(SessionOpts{Flood: true, Mutate: func(cfg *client.Config) {
+			if idx%2 == 1 {
+				cfg.Timeout = 0 // the dial timeout ("0 = wait indefinitely") must not matter for sending
+			}
+		}})
 		mc, err := s.Connect()
 		if err != nil {
 			c.R.Inconcl("connect: " + err.Error())
